@@ -323,6 +323,16 @@ namespace
                 R.isLocal = VD->isLocalVarDecl();
                 return true;
             }
+            if (auto* BD = dyn_cast<BindingDecl>(D->getDecl()))
+            {
+                // a structured binding is a local name for a part of the decomposed object
+                R.name = BD->getNameAsString();
+                R.decl = std::to_string(lineOf(BD->getLocation())) + ":" + std::to_string(colOf(BD->getLocation()));
+                R.type = typeStr(BD->getType());
+                R.isParam = false;
+                R.isLocal = true;
+                return true;
+            }
             return false;
         }
         if (auto* M = dyn_cast<MemberExpr>(E))
@@ -952,6 +962,13 @@ namespace
                     O["vd"] = std::to_string(lineOf(VD->getLocation())) + ":" + std::to_string(colOf(VD->getLocation()));
                     O["type"] = typeStr(VD->getType());
                     O["ctype"] = typeStr(VD->getType().getCanonicalType());
+                    if (auto* DD = dyn_cast<DecompositionDecl>(VD))
+                    {
+                        json::Array BA;
+                        for (auto* B : DD->bindings())
+                            BA.push_back(B->getNameAsString());
+                        O["bindings"] = std::move(BA);
+                    }
                     if (VD->isStaticLocal())
                         O["static"] = true;
                     if (VD->getTLSKind() != VarDecl::TLS_None)
